@@ -14,6 +14,7 @@ from ..gen import c01_enc as E
 from ..gen import c01_rsmi as R
 from ..gen import c01_str as T
 from ..gen import c01_hist as HI
+from ..gen import c01_misc as MI
 
 PID = "C01"
 COQ_HEADER = ("From Coq Require Import List NArith ZArith.\nFrom SK Require Import lib.Tok lib.LGraph model.C01_Model model.C02_Model model.C01_Opts model.C01_String.\n"
@@ -43,8 +44,13 @@ EXPLANATION = ("Exhaustive sub-space (both tiers): ALL pairs (G,H) on a shared n
                "explicit hydrogens. Theorems: round trip, union + order pair + difference, equivariance, refutation without the "
                "shared-node-set precondition; the same for every option value and both store modes, the exact effect of "
                "ignore_aromaticity on standard_order; closed form of MolToGraph.transform, implicit_hydrogen (hydrogen total preserved, "
-               "decrement once per preserved hydrogen), GraphToMol, the graphs its_to_rsmi writes, h_to_explicit on an ITS (as repaired by "
-               "/repo 61e730e); string round trip relative to a contract on RDKit alone.")
+               "decrement once per preserved hydrogen, order independent), GraphToMol, the graphs its_to_rsmi writes, h_to_explicit on an ITS (as "
+               "repaired by /repo 61e730e); renumbering of the atom maps commutes with molecule graphs, ITS, reaction centre and the graphs "
+               "its_to_rsmi writes; string round trip relative to a contract on RDKit alone.  Round 3: HISTORY cases (kinds hist-str, hist-pair: "
+               "3-9 calls in one process on the same strings / shared graph objects, attribute selections and modes in changing order, in-place "
+               "edits, spoiled results, positional wrappers; the library's modules are re-executed before each history), degenerate values "
+               "(empty sides, single atoms, id 0, huge ids, falsy labels), reactions of 110-170 atoms, every builder of MolToGraph, GraphToMol "
+               "options, graph_to_rsmi without ITS, and option paths without a model of their own checked against the reference path (api-misc).")
 TRUSTED_BASE = [
     "Coq 8.16.1 kernel + vm_compute (no native_compute); stdlib only",
     "hand-written models coq/model/C01_Model.v, C01_Opts.v (ITSConstruction options), C01_String.v (MolToGraph.transform, implicit_hydrogen, "
@@ -76,7 +82,7 @@ TESTED_NOT_PROVED = [
     "explicit_hydrogen=True it is proved for all balanced reactions: C01_rsmi_pipeline_explicit)",
     "implicit_hydrogen keeps every non-hydrogen atom's total H on graphs whose hydrogens have one bond: oracle on every ih case (theorem C01_implicit_hydrogen for all well-formed graphs)",
 ]
-LEVEL_TEXT = ("Machine-checked proof (Coq) over an executable model of ITSConstruction.construct/ITSGraph and its_decompose: for all well-formed "
+LEVEL_TEXT = ("Machine-checked proof (Coq, 22 theorems) over an executable model of ITSConstruction.construct/ITSGraph and its_decompose: for all well-formed "
               "reactant/product graphs on the same node set with positive bond orders, decompose(construct(G,H)) returns exactly G and H "
               "(atoms, element, aromaticity, hydrogen count, charge, atom_map = node id, every bond with its order) - for every value of "
               "ignore_aromaticity, balance_its, store and attributes_defaults; the ITS has exactly the union of the nodes and bonds, every bond "
@@ -85,8 +91,10 @@ LEVEL_TEXT = ("Machine-checked proof (Coq) over an executable model of ITSConstr
               "trip fails (witness). The string half is modelled between the RDKit calls: MolToGraph.transform in closed form (mapped atoms, "
               "bonds between them, atom_map = id), implicit_hydrogen (reaction-centre hydrogens stay, all others are folded, every atom's "
               "hydrogen total is preserved, decrement once per preserved hydrogen), GraphToMol up to the RWMol, and the string round trip "
-              "its_to_rsmi(rsmi_to_its(r)) relative to a written-out contract on RDKit's reader/writer alone. Every model is compared with "
-              "the Python code on every run, including the intermediate graphs recorded inside its_to_rsmi.")
+              "its_to_rsmi(rsmi_to_its(r)) relative to a written-out contract on RDKit's reader/writer alone; renumbering the atom maps of a "
+              "reaction commutes with the molecule graphs, the ITS, the reaction centre and what its_to_rsmi writes. Every model is compared "
+              "with the Python code on every run, including the intermediate graphs recorded inside its_to_rsmi, and in multi-call histories "
+              "on shared objects (the model is pure, so every step must equal the fresh value).")
 LEVEL_NOTE = ("Defect found and repaired in this round: rsmi_to_its(explicit_hydrogen=True) double-counted hydrogens on the product side "
               "(its_to_rsmi returned None for 346/346 corpus reactions), /repo commit 61e730e, regress corpus + known_findings.d/C01.json. "
               "RDKit (parse, sanitise, write) is a named premise (contract R1 of theorem C01_rsmi_pipeline), monitored by an independent-reading "
@@ -118,6 +126,8 @@ def impl(case):
     from synkit.Graph.ITS.its_construction import ITSConstruction
     from synkit.Graph.ITS.its_decompose import its_decompose
     k = case.get("kind", "")
+    if k == "api-misc":
+        return MI.obs(case)
     if k == "hist-str":
         return HI.obs_hist_str(case)
     if k == "hist-pair":
@@ -155,6 +165,8 @@ def coq_case(case):
     worker_init()
     k = case.get("kind", "")
     try:
+        if k == "api-misc":
+            return MI.coq(case)
         if k == "hist-str":
             return HI.coq_hist_str(case) if R.well_formed(case["rsmi"]) else None
         if k == "hist-pair":
@@ -371,6 +383,8 @@ def oracle(case):
         return ih_clauses(case["G"], case["pres"])
     if case.get("kind") in ("m2g", "g2r", "g2m"):
         return []
+    if case.get("kind") == "api-misc":
+        return MI.oracle(case)
     if case.get("kind") == "hist-str":
         return HI.oracle_hist_str(case, string_clauses, R.well_formed)
     if case.get("kind") == "hist-pair":
@@ -428,7 +442,7 @@ def neighbours(case, rng):
 def nontrivial(case, obs):
     if case.get("kind") == "ih":
         return bool(case["pres"]) and any(a["element"] == "H" for _, a in case["G"]["nodes"])
-    if case.get("kind") in ("m2g", "g2r", "g2m"):
+    if case.get("kind") in ("m2g", "g2r", "g2m", "api-misc"):
         return False
     if case.get("kind", "").startswith("hist-"):
         return True
@@ -469,7 +483,7 @@ def distribution(cases, obss):
             if k.startswith("hist-"):
                 extra["history_steps"] = extra.get("history_steps", 0) + len(c["steps"])
                 continue
-            if k in ("g2r", "g2m"):
+            if k in ("g2r", "g2m", "api-misc"):
                 continue
             if k == "m2g":
                 extra["m2g_with_unmapped_atoms"] += ":" not in c["smiles"] or c["smiles"].count("[") > c["smiles"].count(":")
@@ -935,6 +949,11 @@ def gen_histories(rsmi_cases, rng, n_str, n_pair):
     rng.shuffle(rs)
     pairs = gen_random(rng, 40, maxn=6) + gen_four(rng, 20) + gen_opts_arom(rng, 10)
     extra = [dict(kind="g2r", rsmi=r) for r in rs[:max(12, n_str // 2)]]
+    for r in rs[:max(10, n_str // 3)] + list(HAND_STR):          # balanced, fully mapped reactions only (reference = default path)
+        a, b = r.split(">>")
+        A, B = R.read_side(a), R.read_side(b)
+        if A is not None and B is not None and not (A[2] or B[2] or A[3] or B[3]) and set(A[0]) == set(B[0]):
+            extra.append(dict(kind="api-misc", rsmi=r))
     for c in gen_ih(rng, max(40, n_pair // 3)):
         extra.append(dict(kind="g2m", G=c["G"], ibo=rng.random() < 0.5, uhc=rng.random() < 0.5))
     return HI.gen_hist_str(rs, rng, n_str) + HI.gen_hist_pair(pairs, rng, n_pair, _opts) + extra
